@@ -102,7 +102,10 @@ def closure_scenario(sid, pattern, n_strategies=2, second_market=None, place=Tru
             if ch == "O":
                 ups.append({"pt": t0 + 1000 * k, "version": 1 + k, "books": {"11": _bk([[2.0, 10]], [[2.4, 10]], [[2.2, 2.0 * k]]), "12": _bk([[3.0, 10]], [[3.4, 10]], [])}})
             else:
-                ups.append({"pt": t0 + 1000 * k, "status": "CLOSED", "version": 1 + k, "rstat": {"11": ["WINNER", None, None], "12": ["LOSER", None, None]}, "books": {}, "force_md": True})
+                # a market that re-opens is settled again, possibly with an amended result: the closures after a re-opening name the other winner
+                amended = "O" in pat[:k] and "C" in pat[:k] and pat[:k].rstrip("C").count("C") > 0
+                res = {"11": ["LOSER", None, None], "12": ["WINNER", None, None]} if amended else {"11": ["WINNER", None, None], "12": ["LOSER", None, None]}
+                ups.append({"pt": t0 + 1000 * k, "status": "CLOSED", "version": 1 + k, "rstat": res, "books": {}, "force_md": True})
         return {"id": mid, "event_id": "30000001", "market_type": "WIN", "winners": 1, "bsp": True, "persistence": True, "runners": [11, 12], "updates": ups}
     markets = [market("1.100000001", 0, pattern)]
     if second_market:
@@ -422,4 +425,35 @@ def family_package_voided(tier, seed):
                 m = {"id": "1.100000001", "event_id": "30000001", "market_type": "WIN", "winners": 1, "bsp": True, "persistence": True, "runners": [11, 12, 13], "updates": ups}
                 out.append({"id": "pv%d" % k, "cfg": {}, "markets": [m],
                             "strategies": [{"name": "A", "max_live_trade_count": 1000, "script": {"1.100000001|0|book": [{"op": "txn", "actions": acts}]}}]})
+    return out
+
+
+def family_removal_variants(tier, seed):
+    """removals the random generator reaches rarely: small factors (below the 2.5 threshold) with market-on-close
+    lay orders on the other runners, win and place markets; a market that closes and is re-opened while the runner
+    is still listed as removed (the removal must not be applied a second time); a second removal after that"""
+    out = []
+    k = 0
+    for mtype, winners in (("WIN", 1), ("PLACE", 2), ("OTHER_PLACE", 2)):
+        for af in (None, 0.0, 1.0, 2.4, 2.5, 20.0):
+            for reopen in (False, True):
+                k += 1
+                def up(pt, removed, version, status="OPEN", trd=0.0, removed2=False):
+                    rs = {"11": ["REMOVED" if removed else "ACTIVE", af, None], "12": ["ACTIVE", 30.0, None], "13": ["ACTIVE", 30.0, None], "14": ["REMOVED" if removed2 else "ACTIVE", 5.0, None]}
+                    books = {}
+                    for r in ("11", "12", "13", "14"):
+                        if rs[r][0] == "ACTIVE":
+                            books[r] = _bk([[4.0, 20.0]], [[4.2, 20.0]], [[4.1, trd]])
+                    return {"pt": pt, "status": status, "version": version, "rstat": rs, "books": books}
+                ups = [up(0, False, 1), up(1000, False, 1, trd=4.0), up(2000, True, 2, trd=4.0), up(3000, True, 2, trd=8.0)]
+                if reopen:
+                    closed = {"pt": 4000, "status": "CLOSED", "version": 3, "rstat": {"11": ["REMOVED", af, None], "12": ["WINNER", 30.0, None], "13": ["LOSER" if winners == 1 else "WINNER", 30.0, None], "14": ["LOSER", 5.0, None]}, "books": {}, "force_md": True}
+                    ups += [closed, up(5000, True, 4, status="SUSPENDED", trd=8.0), up(6000, True, 5, trd=8.0), up(7000, True, 6, trd=12.0, removed2=True), up(8000, True, 6, trd=12.0, removed2=True)]
+                acts = [{"op": "place", "o": "r1", "t": "tr1", "sel": 12, "side": "BACK", "price": 4.0, "size": 5.0},                     # matched at once on another runner
+                        {"op": "place", "o": "r2", "t": "tr2", "sel": 12, "side": "LAY", "type": "MARKET_ON_CLOSE", "size": 30.0},       # SP lay liability on another runner
+                        {"op": "place", "o": "r3", "t": "tr3", "sel": 13, "side": "LAY", "type": "MARKET_ON_CLOSE", "size": 12.5},
+                        {"op": "place", "o": "r4", "t": "tr4", "sel": 11, "side": "BACK", "price": 4.0, "size": 3.0},                     # on the runner that goes
+                        {"op": "place", "o": "r5", "t": "tr5", "sel": 13, "side": "BACK", "price": 4.1, "size": 6.0, "pers": "PERSIST"}]  # rests, fills partly
+                m = {"id": "1.100000001", "event_id": "30000001", "market_type": mtype, "winners": winners, "bsp": True, "persistence": True, "runners": [11, 12, 13, 14], "updates": ups}
+                out.append({"id": "rv%d" % k, "cfg": {}, "markets": [m], "strategies": [{"name": "A", "max_live_trade_count": 1000, "script": {"1.100000001|0|book": acts}}]})
     return out
